@@ -28,7 +28,8 @@ from glue.core import Data
 from glue.core.coordinates import AffineCoordinates, IdentityCoordinates
 from glue.core.coordinate_helpers import pixel2world_single_axis, world2pixel_single_axis
 
-from vf.common import VIEW_KINDS, make_view, describe_view, exc_name
+from vf.common import VIEW_KINDS, make_view, exc_name, rand_slice
+from vf.common import describe_view as _describe_view
 
 ID = "C15"
 LEVEL = "exploration"
@@ -54,6 +55,7 @@ ANCHORS = ["glue.core.coordinate_helpers:pixel2world_single_axis", "glue.core.co
 RTOL = 1e-9
 ATOL = 1e-9
 RT_TOL = 1e-8
+REL = 1e-12      # relative to the magnitude of the quantity (matmul / wcslib round to ~1e-16 of it)
 
 # coupling patterns of the linear part, in matrix (x, y, z) order; 1 = non-zero entry
 PATTERNS = {
@@ -93,8 +95,15 @@ def cases(tier, seed):
 
 
 # ---------------------------------------------------------------- recipes
-def make_matrix(rng, nd, pattern):
-    """Well-conditioned (nd+1)x(nd+1) affine matrix whose linear part has exactly the given non-zero pattern."""
+TINY = [2.5e-10, 4e-10, 1e-9, -3e-10, 7.5e-10]
+MAGNITUDES = ["unit", "tiny_axis", "all_tiny", "tiny_offdiag"]
+
+
+def make_matrix(rng, nd, pattern, magnitude="unit"):
+    """(nd+1)x(nd+1) affine matrix whose linear part has exactly the given non-zero pattern.  The order-1 base matrix
+    is well conditioned; `magnitude` then makes genuinely tiny but real terms (a wavelength axis in metres next to
+    order-1 axes): tiny_axis = one world row (and its offset) scaled by ~1e-10..1e-9, all_tiny = every row,
+    tiny_offdiag = coupling terms ~1e-10..1e-9 next to an order-1 diagonal.  Returns (matrix, inverse of linear part)."""
     pat = np.array(pattern, dtype=bool)
     for _ in range(200):
         lin = np.zeros((nd, nd))
@@ -105,10 +114,25 @@ def make_matrix(rng, nd, pattern):
                         else rng.choice([0.25, -0.5, 0.75, 0.1, -0.2, 1.0])
         if abs(np.linalg.det(lin)) < 0.2 or np.linalg.cond(lin) > 200:
             continue
-        inv = np.linalg.inv(lin)
+        off = np.array([rng.choice([0.0, 1.0, -2.5, 10.0, 0.125]) for _ in range(nd)])
+        if magnitude == "tiny_offdiag":
+            for i in range(nd):
+                for j in range(nd):
+                    if i != j and pat[i, j] and pat[i, i]:
+                        lin[i, j] = rng.choice(TINY)
+            inv = np.linalg.inv(lin)
+        else:
+            scale = np.ones(nd)
+            if magnitude == "tiny_axis":
+                scale[rng.randrange(nd)] = abs(rng.choice(TINY))
+            elif magnitude == "all_tiny":
+                scale = np.array([abs(rng.choice(TINY)) for _ in range(nd)])
+            inv = np.linalg.inv(lin) / scale[None, :]      # inverse of diag(scale) @ lin, without a tiny pivot
+            lin = lin * scale[:, None]
+            off = off * scale * np.where(scale < 1, 100.0, 1.0)   # e.g. 5e-7 m with 2.5e-10 m steps
         m = np.eye(nd + 1)
         m[:nd, :nd] = lin
-        m[:nd, nd] = [rng.choice([0.0, 1.0, -2.5, 10.0, 0.125]) for _ in range(nd)]
+        m[:nd, nd] = off
         return m, inv
     raise RuntimeError("no well-conditioned matrix for pattern %r" % (pattern,))
 
@@ -126,6 +150,29 @@ def linear_wcs(nd, matrix):
     return w
 
 
+_INV_PATTERN = {}
+
+
+def structural_inverse_pattern(pat):
+    """Non-zero pattern of the inverse of a generic matrix with non-zero pattern `pat` (magnitudes of the actual
+    entries must not matter: a 1e-10 coupling is a dependency)."""
+    key = pat.tobytes() + bytes([pat.shape[0]])
+    if key not in _INV_PATTERN:
+        import random
+        r = random.Random(12345)
+        n = pat.shape[0]
+        acc = np.zeros((n, n), dtype=bool)
+        done = 0
+        while done < 3:
+            g = np.array([[r.uniform(1.0, 2.0) * r.choice([-1, 1]) if pat[i, j] else 0.0 for j in range(n)] for i in range(n)])
+            if abs(np.linalg.det(g)) < 0.05:
+                continue
+            acc |= np.abs(np.linalg.inv(g)) > 1e-9
+            done += 1
+        _INV_PATTERN[key] = acc
+    return _INV_PATTERN[key]
+
+
 def structure(nd, lin, inv):
     """Set-based description of which axes matter, in NUMPY axis order (axis k <-> matrix index nd-1-k).
 
@@ -136,8 +183,7 @@ def structure(nd, lin, inv):
     wdep[p]     world axes that depend on pixel axis p (column of the forward pattern)
     """
     C = (np.asarray(lin) != 0)[::-1, ::-1]          # C[w, p] numpy order
-    scale = np.abs(inv).max()
-    Ci = (np.abs(np.asarray(inv)) > 1e-9 * scale)[::-1, ::-1]   # Ci[p, w]
+    Ci = structural_inverse_pattern(np.asarray(lin) != 0)[::-1, ::-1]   # Ci[p, w]
     deps = {w: {p for p in range(nd) if C[w, p]} for w in range(nd)}
     wdep = {p: {w for w in range(nd) if C[w, p]} for p in range(nd)}
     group = {p: set().union(*[deps[w] for w in wdep[p]]) if wdep[p] else set() for p in range(nd)}
@@ -161,7 +207,9 @@ def dense_reference(coords, shape):
     return grids, world
 
 
-def close(got, exp, tol=None):
+def close(got, exp, tol=None, scale=None):
+    """tol: absolute tolerance; scale: magnitude of the quantity -> absolute tolerance 1e-12 * scale (values of a
+    tiny axis are ~1e-9: a fixed absolute tolerance would accept anything there)."""
     got = np.asarray(got)
     exp = np.asarray(exp)
     if got.shape != exp.shape:
@@ -172,11 +220,38 @@ def close(got, exp, tol=None):
         g = got.astype(float)
     except (TypeError, ValueError):
         return "dtype"
-    if tol is None:
+    if scale is not None:
+        ok = np.allclose(g, exp, rtol=0, atol=REL * scale, equal_nan=True)
+    elif tol is None:
         ok = np.allclose(g, exp, rtol=RTOL, atol=ATOL, equal_nan=True)
     else:
         ok = np.allclose(g, exp, rtol=0, atol=tol, equal_nan=True)
     return None if ok else "value"
+
+
+def describe_view(view):
+    return str(view) if isinstance(view, (int, np.integer)) else _describe_view(view)
+
+
+def neg_view(rng, shape):
+    """Negative scalar indices, alone or mixed with slices / non-negative integers (numpy semantics: -k = n-k)."""
+    nd = len(shape)
+    n = rng.randint(1, nd)
+    v = []
+    for i in range(n):
+        r = rng.random()
+        if r < 0.5:
+            v.append(-rng.randint(1, shape[i]))
+        elif r < 0.8:
+            v.append(rand_slice(rng, shape[i], allow_empty=False))
+        else:
+            v.append(rng.randrange(shape[i]))
+    if not any(isinstance(x, int) and x < 0 for x in v):
+        i = rng.randrange(n)
+        v[i] = -rng.randint(1, shape[i])
+    if n == 1 and rng.random() < 0.5:
+        return v[0]          # data[wcid, -1]
+    return tuple(v)
 
 
 def view_index(view):
@@ -193,15 +268,22 @@ def run_case(ctx, case):
         shape = tuple(1 if rng.random() < 0.4 else s for s in shape)
     pattern = PATTERNS[nd][pname]
     ckind = "identity" if pattern is None else "affine"
+    magnitude = "unit"
     if pattern is None:
         coords = IdentityCoordinates(n_dim=nd)
         lin = np.eye(nd)
         inv = np.eye(nd)
         matrix = None
     else:
-        matrix, inv = make_matrix(rng, nd, pattern)
+        magnitude = {5: "tiny_axis", 6: "all_tiny", 7: "tiny_offdiag"}.get(k % 8, "unit")
+        pat = np.array(pattern, dtype=bool)
+        # tiny couplings only where the matrix stays well conditioned without them (full diagonal); otherwise the
+        # round trip legitimately loses precision
+        if magnitude == "tiny_offdiag" and not (all(pat[i, i] for i in range(nd)) and pat.sum() > nd):
+            magnitude = "tiny_axis"
+        matrix, inv = make_matrix(rng, nd, pattern, magnitude)
         lin = matrix[:nd, :nd]
-        if k % 4 == 3:
+        if k % 8 == 3:
             coords = linear_wcs(nd, matrix)     # the same affine map expressed as an astropy WCS (glue's WCS branch)
             ckind = "wcs"
         else:
@@ -211,11 +293,22 @@ def run_case(ctx, case):
     d = Data(label="d", coords=coords)
     d.add_component(np.arange(size, dtype=float).reshape(shape), "v")
     grids, world = dense_reference(coords, shape)
+    # magnitude of each world axis (numpy order) over the pixel range used anywhere below, and of each pixel axis when
+    # recovered from such world values: absolute tolerances are REL times these
+    offm = np.zeros(nd) if matrix is None else matrix[:nd, nd]
+    pmax = max(max(shape), 8)
+    wscale_c = np.abs(lin).sum(axis=1) * pmax + np.abs(offm)           # coordinate order
+    wscale_c = np.where(wscale_c == 0, 1.0, wscale_c)
+    pscale_c = np.abs(inv) @ (wscale_c + np.abs(offm)) + 1.0
+    wscale = wscale_c[::-1]
+    pscale = pscale_c[::-1]
+    ctx.count("magnitude:" + magnitude)
     ctx.count("datasets")
     ctx.count("cell:%dd:%s" % (nd, pname))
     base = {"ndim": nd, "coords": ckind}
     ctx.count("coords:" + ckind)
-    wit = {"shape": list(shape), "pattern": pname, "matrix": None if matrix is None else matrix.tolist()}
+    wit = {"shape": list(shape), "pattern": pname, "magnitude": magnitude,
+           "matrix": None if matrix is None else matrix.tolist()}
 
     def report(kind, sig_extra, how, detail):
         sig = dict(base)
@@ -246,6 +339,8 @@ def run_case(ctx, case):
         reps = 2 if vk in ("int_slice_mix", "slice_tuple_full", "slice_tuple_short", "index_arrays") else 1
         for _ in range(reps):
             views.append((vk, make_view(rng, shape, vk)))
+    for _ in range(3):
+        views.append(("neg_int", neg_view(rng, shape)))
     for ax, wc in enumerate(d.world_component_ids):
         comp = d.get_component(wc)
         for vi, (vk, view) in enumerate(views):
@@ -258,7 +353,7 @@ def run_case(ctx, case):
                     got = d.get_data(wc, view)
                 else:
                     got = comp.data if view is None else comp[view]
-                how = close(got, exp)
+                how = close(got, exp, scale=wscale[ax])
             except Exception as e:   # noqa
                 got = None
                 how = "exception:" + exc_name(e)
@@ -275,8 +370,8 @@ def run_case(ctx, case):
         ctx.count("datasets_with_world_axis_outside_own_group")
 
     # ---- L: the automatically created links
-    link_views = [(i, v) for i, v in enumerate(views) if v[0] in ("none", "bool_mask")]
-    others = [(i, v) for i, v in enumerate(views) if v[0] not in ("none", "bool_mask")]
+    link_views = [(i, v) for i, v in enumerate(views) if v[0] in ("none", "bool_mask", "neg_int")]
+    others = [(i, v) for i, v in enumerate(views) if v[0] not in ("none", "bool_mask", "neg_int")]
     rng.shuffle(others)
     link_views += others[:6]
     seen = set()
@@ -302,7 +397,7 @@ def run_case(ctx, case):
                 inputs_ok = all(world_view_ok[(a, vi)] for a in range(nd))
             try:
                 got = link.compute(d) if view is None and rng.random() < 0.5 else link.compute(d, view)
-                how = close(got, exp)
+                how = close(got, exp, scale=wscale[ax] if p2w else pscale[ax])
             except Exception as e:   # noqa
                 got = None
                 how = "exception:" + exc_name(e)
@@ -377,7 +472,11 @@ def run_case(ctx, case):
                         ref = coords.world_to_pixel_values(*flat)
                         got = world2pixel_single_axis(coords, *arrs, pixel_axis=cax)
                     exp = np.asarray(ref if nd == 1 else ref[cax], dtype=float).reshape(hshape)
-                    how = close(got, exp)
+                    if direction == "p2w":
+                        hs = np.abs(lin[cax]).sum() * 7.0 + abs(offm[cax])
+                    else:
+                        hs = np.abs(inv[cax]) @ (7.0 + np.abs(offm)) + 1.0
+                    how = close(got, exp, scale=hs if hs > 0 else 1.0)
                 except Exception as e:   # noqa
                     how = "exception:" + exc_name(e)
                     got = exp = None
@@ -407,7 +506,10 @@ def floors(counters, tier):
     for ck in ("identity", "affine", "wcs"):
         if counters.get("coords:" + ck, 0) < 15:
             out.append("fewer than 15 datasets with %s coordinates" % ck)
-    for vk in VIEW_KINDS:
+    for mg in MAGNITUDES:
+        if counters.get("magnitude:" + mg, 0) < 15:
+            out.append("fewer than 15 datasets with magnitude class %s" % mg)
+    for vk in list(VIEW_KINDS) + ["neg_int"]:
         if counters.get("world_attr_view:" + vk, 0) < 200:
             out.append("fewer than 200 world-attribute reads with view kind %s" % vk)
     return out
